@@ -10,6 +10,7 @@ import PasfmtModel.Proofs.Keywords
 import PasfmtModel.Proofs.LexTotal
 import PasfmtModel.Proofs.LexBoundaries
 import PasfmtModel.Proofs.LexLocal6
+import PasfmtModel.Proofs.LexSpecs
 
 namespace Pasfmt.C13
 
@@ -98,5 +99,236 @@ theorem scan_is_position_independent (st : LexState) (p s s' : Bytes) (ws e : Na
     (h : lexOne false st (p ++ s) = some (some (ws, e, k, st'))) (he : e + 3 ≤ p.length) :
     lexOne false st (p ++ s') = some (some (ws, e, k, st')) :=
   lexOne_local st p s s' ws e k st' ht h he
+
+/-! ### Declarative specifications of the sub-lexers
+
+  Each statement is about the model's own sub-lexer function (`identLen`, `lineCommentEnd`,
+  `blockComment`, `decNumberRest`, `countHex`, `countBinary`, `textLiteral`, `wordKind`) and holds
+  for every byte string, of any length.  The specifications (`Proofs/LexSpecs.lean`) are phrased
+  with "longest prefix in a language" (`LongestPrefixIn`), "first occurrence" (`FirstOcc`) and small
+  grammars; the `*_token_spec` theorems at the end connect the sub-lexers to the tokens via the
+  dispatch tables. -/
+
+/-- **Identifiers are maximal munch.**  Identifier bytes are ASCII letters, digits, `_` and every
+    byte `≥ 0x80` (all bytes of non-ASCII characters).  A length `n` is an *identifier prefix* of
+    the text (its first `n` bytes are identifier bytes and U+3000 = `E3 80 80`, the ideographic
+    space, starts at none of these `n` positions) exactly when `n ≤ identLen l`: the scanner returns
+    the greatest such length.  It stops at the end of the text, at a byte that is not an identifier
+    byte, or right before U+3000 — whatever the length of the identifier. -/
+theorem ident_maximal_munch (l : Bytes) :
+    (∀ n, IdentPrefix l n ↔ n ≤ identLen l) ∧
+    (identLen l = l.length ∨ (∃ b, l[identLen l]? = some b ∧ isIdentByte b = false) ∨
+      OccursAt u3000 l (identLen l)) :=
+  ⟨identPrefix_iff l, identLen_stop l⟩
+
+/-- the identifier byte class in plain terms -/
+theorem ident_byte_class (b : UInt8) : isIdentByte b = true ↔
+    (0x41 ≤ b ∧ b ≤ 0x5A) ∨ (0x61 ≤ b ∧ b ≤ 0x7A) ∨ (0x30 ≤ b ∧ b ≤ 0x39) ∨ b = 0x5F ∨ 0x80 ≤ b :=
+  isIdentByte_iff b
+
+/-- closed form of the identifier scan: the run of identifier bytes (`takeWhile`), cut at the first
+    occurrence of U+3000 in the text -/
+theorem ident_closed_form (l : Bytes) :
+    identLen l = min (l.takeWhile isIdentByte).length ((findSub u3000 l).getD l.length) :=
+  identLen_eq_spec l
+
+-- `ab_1é` is scanned as one identifier (6 bytes) and stops before U+3000
+example : identLen [97, 98, 95, 49, 195, 169, 227, 128, 128, 120] = 6 := by decide
+
+/-- **A `//` comment extends exactly up to (not including) the first CR or LF, or to the end of the
+    text**: its body is the longest prefix of the bytes after `//` without CR and LF, i.e.
+    `takeWhile (≠ CR, ≠ LF)`; the scan stops at the end of the text or on a CR / LF byte. -/
+theorem line_comment_spec (l : Bytes) :
+    LongestPrefixIn NoLineBreak l (lineCommentEnd l) ∧
+    l.take (lineCommentEnd l) = l.takeWhile (fun b => !(b == 0x0A || b == 0x0D)) ∧
+    (lineCommentEnd l = l.length ∨ l[lineCommentEnd l]? = some 0x0A ∨ l[lineCommentEnd l]? = some 0x0D) :=
+  ⟨lineCommentEnd_longest l, take_lineCommentEnd l, lineCommentEnd_stop l⟩
+
+-- ` a` CR LF `b`: the comment body is ` a`
+example : lineCommentEnd [32, 97, 13, 10, 98] = 2 := by decide
+
+/-- **Block comments.**  For the text `l` after the opener (`{` or `(*`), the result
+    `(token length, kind)` of the block-comment scanner is the unique pair allowed by
+    `BlockCommentSpec`:
+    * if the closer (`}` resp. `*)`) occurs in `l`, the token ends right after its *first* occurrence,
+      and the kind is multi-line block if the token text contains a line feed (a lone CR does not
+      count), otherwise individual block if the comment is the first token on its line
+      (`nlBefore`), otherwise inline block;
+    * if the closer does not occur, the token runs to the end of the text minus the trailing blanks
+      (`tokLen - trim`) and is always classified multi-line block. -/
+theorem block_comment_spec (trim : Nat) (kind : BlockCommentKind) (openLen tokLen : Nat) (nlBefore : Bool)
+    (l : Bytes) (x : Nat × CommentKind) :
+    BlockCommentSpec kind trim openLen tokLen nlBefore l x ↔ x = blockComment trim kind openLen tokLen nlBefore l :=
+  ⟨fun h => BlockCommentSpec.unique h (blockComment_sat trim kind openLen tokLen nlBefore l),
+   fun h => h ▸ blockComment_sat trim kind openLen tokLen nlBefore l⟩
+
+/-- the search used by comments and directives returns the offset just after the first occurrence
+    of the closer, and fails exactly when there is none -/
+theorem block_comment_end_spec (k : BlockCommentKind) (l : Bytes) :
+    (∀ e, findBlockCommentEnd k l = some e ↔ ∃ i, e = i + (closer k).length ∧ FirstOcc (closer k) l i) ∧
+    (findBlockCommentEnd k l = none ↔ ∀ j, ¬ OccursAt (closer k) l j) :=
+  ⟨findBlockCommentEnd_some_iff k l, findBlockCommentEnd_none_iff k l⟩
+
+-- `{a}b} `: ends after the first `}`; inline.   `{a` LF `b}`: multi-line.   `{a` CR `b}` on its own line: individual.
+example : blockComment 0 .brace 1 6 false [97, 125, 98, 125, 32] = (3, .cInlineBlock) := by decide
+example : blockComment 0 .brace 1 5 false [97, 10, 98, 125] = (5, .cMultilineBlock) := by decide
+example : blockComment 0 .brace 1 5 true [97, 13, 98, 125] = (5, .cIndividualBlock) := by decide
+-- `(* a *  ` unterminated (9 bytes from the opener, 2 trailing blanks): 7 bytes, multi-line
+example : blockComment 2 .parenStar 2 9 true [32, 97, 32, 42, 32, 32] = (7, .cMultilineBlock) := by decide
+
+/-- **Decimal literals are maximal munch over the grammar**
+    `digit (digit|_)* ( '.' digit (digit|_)* )? ( (e|E) (+|-)? (digit (digit|_)*)? )?`:
+    what the scanner consumes after the first digit is the longest prefix of the remaining text in
+    the language `DecTail` (the grammar without its first digit).  Consequences: the fraction is
+    taken only if a digit follows the `.` (so `1..2` and `1.e3` stop after `1`, and `1._5` too); an
+    `e`/`E` is consumed even if no digit follows (`1e`, `1e+` are whole tokens), but the exponent
+    digits must not start with `_`. -/
+theorem decimal_number_spec (r : Bytes) : LongestPrefixIn DecTail r (decNumberRest r) :=
+  decNumberRest_longest r
+
+/-- **Hexadecimal literals**: after `$`, the longest run of hex digits and underscores -/
+theorem hex_number_spec (r : Bytes) :
+    LongestPrefixIn (AllBytes isHexByte) r (countHex r) ∧ r.take (countHex r) = r.takeWhile isHexByte ∧
+    ∀ b, isHexByte b = true ↔ (0x30 ≤ b ∧ b ≤ 0x39) ∨ (0x61 ≤ b ∧ b ≤ 0x66) ∨ (0x41 ≤ b ∧ b ≤ 0x46) ∨ b = 0x5F :=
+  ⟨countWhile_longest isHexByte r, take_countWhile isHexByte r, isHexByte_iff⟩
+
+/-- **Binary literals**: after `%`, the longest run of `0`, `1` and underscores -/
+theorem binary_number_spec (r : Bytes) :
+    LongestPrefixIn (AllBytes isBinaryByte) r (countBinary r) ∧
+    r.take (countBinary r) = r.takeWhile isBinaryByte ∧
+    ∀ b, isBinaryByte b = true ↔ b = 0x30 ∨ b = 0x31 ∨ b = 0x5F :=
+  ⟨countWhile_longest isBinaryByte r, take_countWhile isBinaryByte r, isBinaryByte_iff⟩
+
+-- after the first digit: `..2` → nothing (range operator);  `_0.5_e-3_x` → `_0.5_e-3_`;  `e+` → `e+`;
+-- `._5` → nothing;  `E5.3` → `E5`
+example : decNumberRest [46, 46, 50] = 0 := by decide
+example : decNumberRest [95, 48, 46, 53, 95, 101, 45, 51, 95, 120] = 9 := by decide
+example : decNumberRest [101, 43] = 2 := by decide
+example : decNumberRest [46, 95, 53] = 0 := by decide
+example : decNumberRest [69, 53, 46, 51] = 2 := by decide
+example : countHex [70, 102, 95, 48, 71] = 4 ∧ countBinary [49, 95, 48, 50] = 3 := by decide
+
+/-- **Text literals.**  The result `(length, kind)` of `text_literal` on a text that starts with `'`
+    or `#` is the unique pair allowed by `TextLiteralSpec`:
+    * an odd number (≥ 3) of quotes directly followed by CR/LF opens a multi-line literal; it ends
+      right after the first later occurrence of a run of as many quotes (plain substring search: a
+      longer run of quotes closes it too, after its first quotes); without one it is unterminated
+      and takes the whole rest of the text (trailing blanks included);
+    * otherwise the literal is a maximal sequence of items (`TextItems`): quoted segments `'…'`
+      without quote/CR/LF inside (so `''` inside a string is the end of one segment and the start of
+      the next), and character codes `#` + digits/underscores (the first may be `_`), `#$` + hex
+      digits, `#%` + binary digits, the digit runs being maximal.  It ends, single-line, where the
+      next byte is neither `'` nor `#`; it ends, unterminated, at the first malformed item: a quoted
+      segment cut by CR, LF or the end of the text (kept up to there), a `#` with no code (the `#`
+      is kept), `#$`/`#%` with no digit (two bytes kept). -/
+theorem string_literal_spec (l : Bytes) (x : Nat × TextLiteralKind) :
+    TextLiteralSpec l x ↔ x = textLiteral l :=
+  ⟨textLiteral_only l x, fun h => h ▸ textLiteral_sat l⟩
+
+/-- the single-line part alone: the model's loop (with the fuel it is given) computes the unique
+    result allowed by the item grammar -/
+theorem string_items_spec (l : Bytes) (x : Nat × TextLiteralKind) :
+    TextItems l x ↔ x = textLiteralLoop (l.length + 1) l :=
+  ⟨tl_only l x, fun h => h ▸ tl_sat l⟩
+
+-- `'a''b'#13#$0A'c' x` → 16 bytes, single-line;  `'abc` LF … → 4 bytes, unterminated;
+-- three quotes, LF, ` a`, LF, ` `, five quotes, `x` → multi-line, closed by the first three of the five quotes (11 bytes)
+example : textLiteral [39, 97, 39, 39, 98, 39, 35, 49, 51, 35, 36, 48, 65, 39, 99, 39, 32, 120] = (16, .tSingleLine) := by
+  decide
+example : textLiteral [39, 97, 98, 99, 10, 100, 39] = (4, .tUnterminated) := by decide
+example : textLiteral [39, 39, 39, 10, 32, 97, 10, 32, 39, 39, 39, 39, 39, 120] = (11, .tMultiLine) := by decide
+example : textLiteral [35, 36, 32, 120] = (2, .tUnterminated) := by decide
+
+/-- **Keywords are recognised in any letter case**: the kind of a word is the kind of its lower-cased
+    and of its upper-cased spelling, and two words that differ only in ASCII letter case have the
+    same kind (corollary of `keyword_lookup_spec`) -/
+theorem keyword_case_insensitive (w : Bytes) :
+    wordKind w = wordKind (asciiLower w) ∧ wordKind w = wordKind (asciiUpper w) ∧
+    ∀ v, eqIgnoreCase w v = true → wordKind w = wordKind v :=
+  ⟨(wordKind_lower w).symm, (wordKind_upper w).symm, fun v h => wordKind_of_eqIgnoreCase w v h⟩
+
+-- `BeGiN`
+example : wordKind [66, 101, 71, 105, 78] = .rKeyword .kBegin := by decide +kernel
+
+/-! ### from the sub-lexers to the tokens
+
+  `lexOne` is one step of the scanner (`whitespace_and_token`).  For a text whose first non-blank
+  byte is `b`, the dispatch tables select the sub-lexer, so the token's end and kind are given by
+  the functions specified above.  `stepState` is the scanner state after the token, `nlBeforeOf`
+  says whether the token is the first on its line. -/
+
+/-- a token starting with a letter (outside `asm` blocks) is the letter plus the identifier run
+    after it; it is an identifier right after a `.`, otherwise what the keyword table says -/
+theorem word_token_spec (simd : Bool) (st : LexState) (inp : Bytes) (b : UInt8) (r : Bytes)
+    (hasm : st.inAsm = false) (hd : inp.drop (countLeadingWs inp) = b :: r) (hb : isAlpha b = true) :
+    let k : RawKind := if st.prevReal == some (.rOp .oDot) then .rIdentifier
+      else wordKind ((b :: r).take (1 + identLen r))
+    lexOne simd st inp =
+      some (some (countLeadingWs inp, countLeadingWs inp + (1 + identLen r), k,
+        stepState st k (k == .rKeyword .kAsm))) :=
+  lexOne_word simd st inp b r hasm hd hb
+
+/-- a token starting with `_` is an identifier: `_` plus the identifier run after it -/
+theorem underscore_token_spec (simd : Bool) (st : LexState) (inp : Bytes) (r : Bytes)
+    (hd : inp.drop (countLeadingWs inp) = 0x5F :: r) :
+    lexOne simd st inp =
+      some (some (countLeadingWs inp, countLeadingWs inp + (1 + identLen r), .rIdentifier,
+        stepState st .rIdentifier st.inAsm)) :=
+  lexOne_underscore simd st inp r hd
+
+/-- a token starting with a digit (outside `asm` blocks) is a decimal literal: the digit plus
+    `decNumberRest` -/
+theorem decimal_token_spec (simd : Bool) (st : LexState) (inp : Bytes) (b : UInt8) (r : Bytes)
+    (hasm : st.inAsm = false) (hd : inp.drop (countLeadingWs inp) = b :: r) (hb : isDigit b = true) :
+    lexOne simd st inp =
+      some (some (countLeadingWs inp, countLeadingWs inp + (1 + decNumberRest r), .rNumberLiteral .nDecimal,
+        stepState st (.rNumberLiteral .nDecimal) false)) :=
+  lexOne_decimal simd st inp b r hasm hd hb
+
+/-- tokens starting with `$` / `%` are hex / binary literals (in every scanner state) -/
+theorem hex_binary_token_spec (simd : Bool) (st : LexState) (inp : Bytes) (r : Bytes) :
+    (inp.drop (countLeadingWs inp) = 0x24 :: r →
+      lexOne simd st inp =
+        some (some (countLeadingWs inp, countLeadingWs inp + (1 + countHex r), .rNumberLiteral .nHex,
+          stepState st (.rNumberLiteral .nHex) st.inAsm))) ∧
+    (inp.drop (countLeadingWs inp) = 0x25 :: r →
+      lexOne simd st inp =
+        some (some (countLeadingWs inp, countLeadingWs inp + (1 + countBinary r), .rNumberLiteral .nBinary,
+          stepState st (.rNumberLiteral .nBinary) st.inAsm))) :=
+  ⟨lexOne_hex simd st inp r, lexOne_binary simd st inp r⟩
+
+/-- a token starting with `'` or `#` is a text literal with the length and kind of `textLiteral`
+    (in every scanner state) -/
+theorem text_token_spec (simd : Bool) (st : LexState) (inp : Bytes) (b : UInt8) (r : Bytes)
+    (hd : inp.drop (countLeadingWs inp) = b :: r) (hb : b = 0x27 ∨ b = 0x23) :
+    lexOne simd st inp =
+      some (some (countLeadingWs inp, countLeadingWs inp + (textLiteral (b :: r)).1,
+        .rTextLiteral (textLiteral (b :: r)).2, stepState st (.rTextLiteral (textLiteral (b :: r)).2) st.inAsm)) :=
+  lexOne_text simd st inp b r hd hb
+
+/-- a token starting with `//` is a line comment up to `lineCommentEnd`; individual if it is the
+    first token on its line, otherwise inline (in every scanner state) -/
+theorem line_comment_token_spec (simd : Bool) (st : LexState) (inp : Bytes) (r : Bytes)
+    (hd : inp.drop (countLeadingWs inp) = 0x2F :: 0x2F :: r) :
+    let k : RawKind := .rComment (if nlBeforeOf st inp then .cIndividualLine else .cInlineLine)
+    lexOne simd st inp =
+      some (some (countLeadingWs inp, countLeadingWs inp + (2 + lineCommentEnd r), k, stepState st k st.inAsm)) :=
+  lexOne_lineComment simd st inp r hd
+
+/-- a token starting with `{` resp. `(*`, not followed by `$`, is a block comment with the length and
+    kind of `blockComment`, where `trim` is the length of the blank run at the end of the whole
+    remaining text and `tokLen` the number of bytes from the opener to the end of the text -/
+theorem block_comment_token_spec (simd : Bool) (st : LexState) (inp : Bytes) (r : Bytes) (hnd : ∀ t, r ≠ 0x24 :: t) :
+    (inp.drop (countLeadingWs inp) = 0x7B :: r →
+      let res := blockComment (countTrailingWs inp) .brace 1 (r.length + 1) (nlBeforeOf st inp) r
+      lexOne simd st inp =
+        some (some (countLeadingWs inp, countLeadingWs inp + res.1, .rComment res.2,
+          stepState st (.rComment res.2) st.inAsm))) ∧
+    (inp.drop (countLeadingWs inp) = 0x28 :: 0x2A :: r →
+      let res := blockComment (countTrailingWs inp) .parenStar 2 (r.length + 2) (nlBeforeOf st inp) r
+      lexOne simd st inp =
+        some (some (countLeadingWs inp, countLeadingWs inp + res.1, .rComment res.2,
+          stepState st (.rComment res.2) st.inAsm))) :=
+  ⟨fun hd => lexOne_braceComment simd st inp r hd hnd, fun hd => lexOne_parenComment simd st inp r hd hnd⟩
 
 end Pasfmt.C13
